@@ -209,6 +209,11 @@ class HttpProtocolHandler(BaseTcpServerHandler[HttpClientConnection]):
                     'BrokenPipeError when flushing buffer for client',
                 )
                 return True
+            except (ssl.SSLWantWriteError, ssl.SSLWantReadError):   # Try again later
+                logger.warning(
+                    'SSLWantWriteError encountered while flushing to client, will retry ...',
+                )
+                return False
             except OSError as exc:
                 logger.exception(  # pragma: no cover
                     'OSError when flushing buffer to client',
